@@ -251,7 +251,7 @@ CHECKS = {
         "source, the process-wide mutable bindings / memo decorators / mutable defaults are exactly the reviewed list, the spec repository "
         "hands out copies. Thread interleavings, hash-seed dependence and library internals cannot be carried by a theorem: they are "
         "explored by the isolation harness (same batch alone in fresh processes vs shuffled orders, 8 threads, other hash seeds, "
-        "round-robin engines, after mutating everything the API handed out; digests of every reviewed process-wide object). A shape guard (tools/tr_router.py) pins the router / tandem / context / named-dispatcher / timer functions to the reviewed text "
+        "round-robin engines, after mutating everything the API handed out; digests of every reviewed process-wide object). TandemDispatcher / ContextDispatcher / RouterDispatcher.__call__ are regenerated from the source (tools/tr_dispatch.py) and proved equal to the router model's call_d branches and to one unfolding of dispatch_c (Props/C02_dispatch_src.v). A shape guard (tools/tr_router.py) pins the router / tandem / context / named-dispatcher / timer functions to the reviewed text "
         "the router model was written against.",
    note="Trusted: Coq kernel/vm_compute; translator tools/tr_isolation.py; the router model is tied by Coq-evaluated correspondence with the "
         "real RouterDispatcher (cache hits, call order, events, final cache). PARTIAL: CPython thread scheduling, PYTHONHASHSEED effects, "
